@@ -4,6 +4,7 @@
 package metric // import "go.opentelemetry.io/otel/sdk/metric"
 
 import (
+	"errors"
 	"os"
 	"strconv"
 	"time"
@@ -19,6 +20,14 @@ const (
 	envTimeout = "OTEL_METRIC_EXPORT_TIMEOUT"
 )
 
+// maxDurationMillis is the largest number of milliseconds a time.Duration can
+// hold.
+const maxDurationMillis = int64(1<<63-1) / int64(time.Millisecond)
+
+// errDurationOverflow is logged when an environmental variable has a value
+// that does not fit in a time.Duration.
+var errDurationOverflow = errors.New("duration overflows time.Duration")
+
 // envDuration returns an environment variable's value as duration in milliseconds if it is exists,
 // or the defaultValue if the environment variable is not defined or the value is not valid.
 func envDuration(key string, defaultValue time.Duration) time.Duration {
@@ -33,6 +42,11 @@ func envDuration(key string, defaultValue time.Duration) time.Duration {
 	}
 	if d <= 0 {
 		global.Error(errNonPositiveDuration, "non-positive duration", "environment variable", key, "value", v)
+		return defaultValue
+	}
+	if int64(d) > maxDurationMillis {
+		// The number of milliseconds does not fit in a time.Duration.
+		global.Error(errDurationOverflow, "duration too large", "environment variable", key, "value", v)
 		return defaultValue
 	}
 	return time.Duration(d) * time.Millisecond
